@@ -749,6 +749,9 @@ def gen_same(tier, seed, env_text):
         out.append({"order": order, "split": list(range(1, n)), "days": [rng.randrange(4) for _ in range(n)], "seed": 5})
         # many duplicates of one trace recorded last, with a query limit above the number of distinct traces
         out.append({"order": list(range(n)) + [rng.randrange(n)] * 90, "split": [n], "limit": 40, "seed": 6})
+        # ... recorded FIRST; and recorded on a later day than everything else
+        out.append({"order": [rng.randrange(n)] * 90 + list(range(n)), "split": [90], "limit": 40, "seed": 8})
+        out.append({"order": list(range(n)) + [rng.randrange(n)] * 90, "split": [n], "days": [3, 0], "limit": 40, "seed": 9})
         return out
     for g in range(30 if q else 1500):
         n = rng.randint(2, 4)
@@ -807,6 +810,16 @@ def gen_same(tier, seed, env_text):
         calls = [{"f": "f1", "args": [dl], "ret": NONE, "ys": []}, {"f": "K.m", "args": [dc], "ret": NONE, "ys": []}, {"f": "K.s", "args": [dt], "ret": NONE, "ys": []}]
         cases.append({"type": "same", "calls": calls, "k": 3, "rw": "NONE", "variants": variants(3, 6 if q else 8),
                       "family": "functions whose generated TypedDict classes need different imports"})
+    # classes of a package, of its own submodule and of an equally named top-level module in one signature, under many hash
+    # seeds: which module prefix is stripped first must not depend on the process
+    pk = [AT("atom", "zpkg.PkgTop"), AT("atom", "zpkg.zutil.B"), AT("atom", "zutil.zutil"), AT("atom", "zfoo.Baz"), AT("atom", "barzfoo.Qux"),
+          AT("atom", "zpkg.zfoo.K")]
+    for g in range(2 if q else 12):
+        a, b, c = rng.sample(pk[:3], 3) if g % 2 == 0 else rng.sample(pk, 3)
+        calls = [{"f": "f0", "args": [a, b], "ret": c, "ys": []}, {"f": "K.m", "args": [AT("list", "", [b])], "ret": a, "ys": []}]
+        vs = [{"order": [0, 1], "split": [], "seed": sd} for sd in range(1, 13)]
+        cases.append({"type": "same", "calls": calls, "k": 0, "rw": "NONE", "variants": vs,
+                      "family": "classes of a package, its submodule and equally named modules, twelve hash seeds"})
     # ONE function called with records of different shapes (traces that differ only inside their TypedDicts)
     d3 = absmodel.T("dict", "", [absmodel.T("pair", "", [absmodel.T("str", "a"), absmodel.T("atom", "int")]),
                                   absmodel.T("pair", "", [absmodel.T("str", "c"), absmodel.T("list", "", [absmodel.T("atom", "int")])])])
